@@ -35,7 +35,7 @@ CLAIMED = {
             "stateful property-based testing (rapid) with a watchdog: no blocker may panic or deadlock on the cache-wrapped block store",
             "Histories with bursts of 30-120 pool writes per block, amounts up to 2^200, decimals 0..24, tiny commissions, up to 5 validators, hostile external events "
             "(negative/huge fees, unknown tokens, odd receivers) and time jumps; BeginBlocker/EndBlocker of mhub2 and oracle run in a goroutine under a watchdog that "
-            "declares a deadlock only for the MemDB write-lock-under-open-iterator signature; a panic in a blocker is a violation, a panic in a message handler is a failed tx.",
+            "declares a deadlock only for the MemDB write-lock-under-open-iterator signature; a panic in a blocker is a violation, a panic in a message handler is a failed tx. Two further tests run the oracle claim histories with hostile claim contents and the C02/C03 claim histories (conflicts that leave one nonce undecided while the next is agreed, key rotation) and report only failing blockers.",
             "Configuration preconditions kept: every denom is registered on minter and has a price (see DESIGN.md findings d). Deadlock detection is structural, never a time-out.",
             "DESIGN.md §4 C05"),
     "C10": ("exploration",
